@@ -202,7 +202,7 @@ class CfgWorld:
         cfg, model = self.irs[c].cfg, self.model[c]
         op = rnd.choice(["add", "add", "add", "discard", "remove", "pop",
                          "clear", "update", "ior", "iand", "isub", "ixor",
-                         "move", "query"])
+                         "move", "query", "clone"])
         es = self.edges(c)
         if self.dense and rnd.random() < 0.15:
             # fill one ordered pair with all labels but a few, in one call
@@ -305,6 +305,21 @@ class CfgWorld:
                     s = gt.Section(name="s", module=self.mods[home])
                     n.byte_interval = gt.ByteInterval(size=20, section=s)
             self.where[i] = home
+        elif op == "clone":
+            # the other IR is replaced by one constructed from this CFG's
+            # edges (the object itself, or a set / list / iterator of
+            # them): a set of its own from then on
+            c2 = 1 - c
+            form = rnd.choice(["cfg-object", "set", "list", "iter"])
+            self.case.ops[-1]["form"] = form
+            arg = {"cfg-object": lambda: cfg, "set": lambda: set(cfg),
+                   "list": lambda: list(cfg), "iter": lambda: iter(cfg)}[
+                       form]()
+            new = gt.IR(cfg=arg)
+            self.mods[c2].ir = new
+            self.irs[c2] = new
+            self.model[c2] = dict(model)
+            self.ctx.count("op:clone:" + form)
         elif op == "query":
             S = set(es)
             want = set(model.keys())
